@@ -7,7 +7,7 @@
 (* real outcome.  Events (ndjson, file named by env TRACE):                    *)
 (*   {"ev":"meta",...}                                          first line     *)
 (*   {"ev":"soup","soup":[{kind,good,es:[{as,in,eg,mtu,peers:[{pas,pif,lif}]}]}],   *)
-(*    "src","dst","n","died","panic","cpu_us","pa":[path ids],"pg":[path ids],"inc"} *)
+(*    "src","dst","n","died","panic","cpu_us","ref_us","pa":[path ids],"pg":[path ids],"inc"} *)
 (*   pa = paths from the whole soup, pg = paths from its good part, inc =      *)
 (*   number of returned paths that are inconsistent with themselves.           *)
 EXTENDS SegSoup, Json, IOUtils
@@ -26,18 +26,29 @@ TSpec == TInit /\ [][TSoup]_tvars
 Seen == cur.ev = "soup"
 Set(s) == {s[i] : i \in 1..Len(s)}
 
-\* polynomial bound of the property (CPU microseconds of the combining thread), hard cap 10 s
-BoundUs(n) == LET b == 200000 + 2 * n * n * n IN IF b > 10000000 THEN 10000000 ELSE b
+\* Bounded is self-calibrating: a call slower than 0.1 s is measured three times (minimum = cpu_us) and the
+\* harness measures a fixed reference workload (252 AS entries) at the same moment (ref_us; 0 = fast call).
+\* Allowed: min(200 * (1 + (n/16)^3 / (252/16)^3), 4000) reference units - cubic in the input size n (AS
+\* entries + peer entries), hard cap 4000 units (about 10 s of an idle core).  The margin is wide because
+\* time ratios vary by almost an order of magnitude on an oversubscribed host.
+FastUs == 100000
+BoundUnits(n) == LET k == n \div 16
+                     b == 200 * (1 + (k * k * k) \div 3375)
+                 IN IF b > 4000 THEN 4000 ELSE b
 
 Total          == Seen => (~cur.died /\ ~cur.panic)
-Bounded        == Seen => cur.cpu_us <= BoundUs(cur.n)
+Bounded        == Seen => IF cur.ref_us = 0 THEN cur.cpu_us <= FastUs
+                                   ELSE cur.cpu_us <= BoundUnits(cur.n) * cur.ref_us
 SelfConsistent == Seen => cur.inc = 0
 Monotone       == (Seen /\ ~cur.died /\ ~cur.panic) =>
                     /\ Set(cur.pg) \subseteq Set(cur.pa)
                     /\ AllJunkNonContributing(cur.soup, cur.src, cur.dst) => Set(cur.pg) = Set(cur.pa)
-\* the size the harness reports is the size of the soup it logged
+\* the size the harness reports is the size of the soup it logged (AS entries + peer entries)
+SegSize(sg) == LET RECURSIVE P(_)
+                   P(k) == IF k = 0 THEN 0 ELSE Len(sg.es[k].peers) + P(k - 1)
+               IN Len(sg.es) + P(Len(sg.es))
 SizeHonest     == Seen => cur.n = LET RECURSIVE S(_)
-                                      S(k) == IF k = 0 THEN 0 ELSE Len(cur.soup[k].es) + S(k - 1)
+                                      S(k) == IF k = 0 THEN 0 ELSE SegSize(cur.soup[k]) + S(k - 1)
                                   IN S(Len(cur.soup))
 
 TraceAccepted ==
